@@ -151,6 +151,7 @@ type runner struct {
 	curEv   string
 	inAudit bool
 	alpha   []int
+	maxDat  uint32       // highest data-file index the store has reached (retention is judged against it)
 	soft    []*violation // judged wrong, but the store's state is unaffected: reported, history continues
 }
 
@@ -203,15 +204,28 @@ func (r *runner) required(i int) bool {
 		return true
 	}
 	st := r.db.VerifState()
+	r.noteMaxDat()
 	for _, rec := range st.Recs {
 		if rec.Idx == blocks[i].idx {
 			if rec.Ipos == -1 {
 				return true
 			}
-			return rec.Dat+r.c.Keep >= st.MaxDatIdx
+			// Falling out of retention is final: the file was removed when the newest
+			// data file index passed rec.Dat+keep, and stays removed even if the store's
+			// own idea of the newest file moves back after a restart (LoadBlockIndex
+			// skips invalid records, so a newest file holding only an invalid block is
+			// not counted). Hence the highest index ever reached, not the current one.
+			return rec.Dat+r.c.Keep >= r.maxDat
 		}
 	}
 	return true
+}
+
+// noteMaxDat keeps the highest data-file index the store has reached in this history.
+func (r *runner) noteMaxDat() {
+	if st := r.db.VerifState(); st.MaxDatIdx > r.maxDat {
+		r.maxDat = st.MaxDatIdx
+	}
 }
 
 func (r *runner) get(i int) *violation {
@@ -341,12 +355,15 @@ func (r *runner) diagnose() {
 
 func (r *runner) reopen() *violation {
 	r.db.Close()
+	r.noteMaxDat() // Close flushes the queue and may roll over to a new data file
 	l := r.open()
 	r.queue = nil
 	for i := range r.m {
 		m := &r.m[i]
 		m.Queued, m.Session = false, false
 	}
+	r.noteMaxDat()
+	r.dumpState("after reopen")
 	v := r.checkListing(l)
 	for i := range r.m {
 		m := &r.m[i]
@@ -363,12 +380,39 @@ func (r *runner) reopen() *violation {
 	return nil
 }
 
+// dumpState (C16_TRACE=1, replay mode): where every block lives and which files exist.
+func (r *runner) dumpState(when string) {
+	if os.Getenv("C16_TRACE") == "" {
+		return
+	}
+	st := r.db.VerifState()
+	var recs []string
+	for _, rec := range st.Recs {
+		for _, b := range blocks {
+			if b.idx == rec.Idx {
+				recs = append(recs, fmt.Sprintf("%s:file%d@%d", b.name[:2], rec.Dat, rec.Fpos))
+			}
+		}
+	}
+	var files []string
+	filepath.Walk(r.dir, func(p string, info os.FileInfo, err error) error {
+		if err == nil && !info.IsDir() && strings.HasSuffix(p, ".dat") {
+			rel, _ := filepath.Rel(r.dir, p)
+			files = append(files, rel)
+		}
+		return nil
+	})
+	fmt.Fprintf(ev.Out, "  trace %-16s newest-file(store)=%d newest-file-ever=%d records=%v files=%v\n", when, st.MaxDatIdx, r.maxDat, recs, files)
+}
+
 func (r *runner) step(e string) *violation {
 	// the removal of an old data file runs in a goroutine started at roll-over; the
 	// harness owns that timing: every event starts after it has finished
 	defer func() {
 		if r.db != nil {
 			r.db.VerifWaitFiles()
+			r.noteMaxDat()
+			r.dumpState("after " + e)
 		}
 	}()
 	r.curEv = e
@@ -472,7 +516,8 @@ func (r *runner) enabled() []string {
 
 func (r *runner) key() string {
 	st := r.db.VerifState()
-	b, _ := json.Marshal([]interface{}{r.m, r.queue, st, r.diag != ""})
+	r.noteMaxDat()
+	b, _ := json.Marshal([]interface{}{r.m, r.queue, st, r.diag != "", r.maxDat})
 	h := sha256.Sum256(b)
 	return hex.EncodeToString(h[:12])
 }
@@ -1017,7 +1062,7 @@ func main() {
 	r.Finish(cov, []string{
 		"oracle = map model: exact bytes and trusted flag from BlockGet until the block is marked invalid; after restart the walk lists exactly the stored non-invalid blocks with height/size/tx count",
 		"after invalid(i) on a block already written the block is not judged until the next reopen (the store keeps serving it), then it must be gone; re-adding it in the same session is ignored by the store and not judged",
-		"retention (keep=1, no backup): a block must be readable while its data file index >= newest data file index - keep (file index and newest index read from BlockDB's own bookkeeping); older blocks may fail but never return wrong bytes",
+		"retention (keep=1, no backup): a block must be readable while its data file index >= (highest data file index the store has reached in the history) - keep; file indexes are read from BlockDB's own bookkeeping; falling out of retention is final (the store's recomputed newest index can move back after a restart when the newest file holds only a block marked invalid); older blocks may fail but never return wrong bytes",
 		"BlockInvalid on a trusted block panics by design and is not in the menu; BlockTrusted/BlockInvalid on unknown hashes only print and are not in the menu",
 		"flush thresholds of BlockAdd (1024 blocks / 16 MiB) are not reached: queued = added since the last idle/close",
 		"BlockLength is judged with decode_if_needed=true only",
